@@ -113,6 +113,50 @@ Definition check_watchers (c : list (nat * Z) * list (nat * Z)) : bool :=
   | None => false
   end.
 
+(* case kind 6: reports issued CONCURRENTLY by a shared component.  script = sequential ops (kind-1
+   encoding) ++ [(9, 0)] ++ the concurrent reports; observed = every report forwarded to a host, in global
+   arrival order.  Each report is fanned out to all attached instances atomically (hostWrapper.lock), so the
+   observation must be the model's run for SOME ordering of the concurrent reports. *)
+Fixpoint split_at9 (ls : list (nat * Z)) : list (nat * Z) * list (nat * Z) :=
+  match ls with
+  | [] => ([], [])
+  | p :: r => if Nat.eqb (fst p) 9 then ([], r) else let '(a, b) := split_at9 r in (p :: a, b)
+  end.
+
+Definition check_shared_conc (c : list (nat * Z) * list (nat * Z)) : bool :=
+  let '(ls, obs) := c in
+  let '(pre, conc) := split_at9 ls in
+  match map_opt scop_of pre, map_opt scop_of conc with
+  | Some pre', Some conc' =>
+      existsb (fun p => list_eqb pairNZ_eqb (repZ (sc_run shared0 (pre' ++ p))) obs) (perms conc')
+  | _, _ => false
+  end.
+
+(* case kind 7: instance identities built by Graph.createNodes / createConnector.  script = the create calls in
+   the order they were made: (pipeline, kind * 1000 + component) for receiver (1) / processor (2) / exporter (3),
+   (exporter pipeline, 4000000 + receiver pipeline * 1000 + component) for a connector; observed = every
+   (node key, pipeline named by the node's InstanceID) pair, as a set. *)
+Definition instop_of (p : nat * Z) : option inst_op :=
+  let z := snd p in
+  if Z.leb 4000000 z then
+    Some (IConn (fst p) (Z.to_nat (Z.div (z - 4000000) 1000)) (Z.to_nat (Z.modulo z 1000)))
+  else match Z.div z 1000 with
+       | 1%Z => Some (IRecv (fst p) (Z.to_nat (Z.modulo z 1000)))
+       | 2%Z => Some (IProc (fst p) (Z.to_nat (Z.modulo z 1000)))
+       | 3%Z => Some (IExp (fst p) (Z.to_nat (Z.modulo z 1000)))
+       | _ => None
+       end.
+
+Definition pairsZ (l : list (nat * nat)) : list (nat * Z) := map (fun q => (fst q, Z.of_nat (snd q))) l.
+Definition incl_b (a b : list (nat * Z)) : bool := forallb (fun x => existsb (pairNZ_eqb x) b) a.
+
+Definition check_instances (c : list (nat * Z) * list (nat * Z)) : bool :=
+  let '(ls, obs) := c in
+  match map_opt instop_of ls with
+  | Some os => let m := pairsZ (inst_pairs (inst_run os)) in incl_b m obs && incl_b obs m
+  | None => false
+  end.
+
 Definition check_case (c : nat * (list (nat * Z) * list (nat * Z))) : bool :=
   match fst c with
   | 0 => check_reporter (snd c)
@@ -120,7 +164,9 @@ Definition check_case (c : nat * (list (nat * Z) * list (nat * Z))) : bool :=
   | 2 => check_lifecycle (snd c)
   | 3 => check_conc (snd c)
   | 4 => check_shared2 (snd c)
-  | _ => check_watchers (snd c)
+  | 5 => check_watchers (snd c)
+  | 6 => check_shared_conc (snd c)
+  | _ => check_instances (snd c)
   end.
 
 (* model outputs, for replay files *)
@@ -137,6 +183,13 @@ Definition model_out (c : nat * (list (nat * Z) * list (nat * Z))) : option (lis
          | _, _ => None
          end
   | 4 => option_map (fun os' => repZ (sc2_run shared2_0 os')) (map_opt scop_of (fst (snd c)))
-  | _ => let '(ws, sc) := split_watchers (fst (snd c)) in
+  | 5 => let '(ws, sc) := split_watchers (fst (snd c)) in
          option_map (fun os' => delivZ (watcher_deliveries ws (lc_events os'))) (map_opt lcop_of sc)
+  | 6 => (* the launch order of the concurrent reports (other orderings are legal too) *)
+         let '(pre, conc) := split_at9 (fst (snd c)) in
+         match map_opt scop_of pre, map_opt scop_of conc with
+         | Some pre', Some conc' => Some (repZ (sc_run shared0 (pre' ++ conc')))
+         | _, _ => None
+         end
+  | _ => option_map (fun os => pairsZ (inst_pairs (inst_run os))) (map_opt instop_of (fst (snd c)))
   end.
